@@ -70,6 +70,9 @@ TNext ==
                                  /\ sync' = ValidCx(CxOf(ev.cx))
       ELSE IF ~sync THEN UNCHANGED <<sync, name, cxv, cap, m, s>>
       ELSE IF ev.e = "Fault" THEN Flag(l, <<"fault">>, [kind |-> ev.kind, where |-> ev.where]) /\ sync' = FALSE /\ UNCHANGED <<name, cxv, cap, m, s>>
+      ELSE IF ev.e = "Reinit" THEN         \* init / setbuf on a receiver in use: as good as new
+           /\ m' = MonInit /\ s' = ImplInit /\ UNCHANGED <<name, cxv, cap>>
+           /\ IF ev.size # 0 THEN Flag(l, <<"not_empty_after_init">>, [size |-> 0]) /\ sync' = TRUE ELSE sync' = TRUE
       ELSE IF ev.e = "Recv" THEN RecvStepJ(ev)
       ELSE IF ev.e = "RecvRun" THEN RecvRunJ(ev)
       ELSE EncodeJ(ev)
